@@ -113,6 +113,13 @@ func Alphabet(names ...string) []Letter {
 	reg(Letter{Name: "ADD v4 s@D ->0", NI: D, Op: add, Entry: ribx.V4Entry("172.16.0.0/12", 0, "", nil), Invalid: true})
 	reg(Letter{Name: "ADD v4 s@D ->1@NOPE", NI: D, Op: add, Entry: ribx.V4Entry("172.16.0.0/12", 1, "NOPE", nil), Invalid: true})
 
+	// the generated, symmetric alphabet (FullAlphabet): every entry kind x network instance x {own group 1, own
+	// group 2, group 1 of the other instance, with metadata} x ADD / REPLACE / DELETE; groups and next-hops alike
+	for name, l := range generated() {
+		if _, ok := all[name]; !ok {
+			all[name] = l
+		}
+	}
 	if len(names) == 0 {
 		for n := range all {
 			names = append(names, n)
@@ -591,3 +598,63 @@ func (in *inst) Canon() string {
 }
 
 func (in *inst) Obs() string { return "" }
+
+// generated builds the symmetric alphabet. Names follow the hand-written letters ("ADD v6 q@V ->1@D").
+func generated() map[string]Letter {
+	out := map[string]Letter{}
+	put := func(name, ni string, op spb.AFTOperation_Operation, e proto.Message) {
+		out[name] = Letter{Name: name, NI: ni, Op: op, Entry: e}
+	}
+	type kindT struct {
+		tag string
+		mk  func(nhg uint64, ni string, meta []byte) proto.Message
+	}
+	kinds := []kindT{
+		{"v4 p", func(g uint64, ni string, meta []byte) proto.Message { return ribx.V4Entry("10.0.0.0/8", g, ni, meta) }},
+		{"v6 q", func(g uint64, ni string, meta []byte) proto.Message {
+			return ribx.V6Entry("2001:db8::/32", g, ni, meta)
+		}},
+		{"mpls 100", func(g uint64, ni string, meta []byte) proto.Message { return ribx.MPLSEntry(100, g, ni, meta) }},
+	}
+	for _, ni := range []string{D, V} {
+		other, t, ot := V, "D", "V"
+		if ni == V {
+			other, t, ot = D, "V", "D"
+		}
+		for _, k := range kinds {
+			put(fmt.Sprintf("ADD %s@%s ->1", k.tag, t), ni, add, k.mk(1, "", nil))
+			put(fmt.Sprintf("ADD %s@%s ->2", k.tag, t), ni, add, k.mk(2, "", nil))
+			put(fmt.Sprintf("ADD %s@%s ->1@%s", k.tag, t, ot), ni, add, k.mk(1, other, nil))
+			put(fmt.Sprintf("ADD %s@%s ->1 meta", k.tag, t), ni, add, k.mk(1, "", []byte{7}))
+			put(fmt.Sprintf("REPLACE %s@%s ->2", k.tag, t), ni, rep, k.mk(2, "", nil))
+			put(fmt.Sprintf("REPLACE %s@%s ->1@%s", k.tag, t, ot), ni, rep, k.mk(1, other, nil))
+			put(fmt.Sprintf("DELETE %s@%s", k.tag, t), ni, del, k.mk(0, "", nil))
+		}
+		put(fmt.Sprintf("ADD nhg1@%s {1}", t), ni, add, ribx.NHGEntry(1, 0, m(1, 1)))
+		put(fmt.Sprintf("ADD nhg1@%s {1,2}", t), ni, add, ribx.NHGEntry(1, 0, m(1, 1), m(2, 3)))
+		put(fmt.Sprintf("ADD nhg1@%s {2}", t), ni, add, ribx.NHGEntry(1, 0, m(2, 1)))
+		put(fmt.Sprintf("REPLACE nhg1@%s {2}", t), ni, rep, ribx.NHGEntry(1, 0, m(2, 1)))
+		put(fmt.Sprintf("DELETE nhg1@%s", t), ni, del, ribx.NHGEntry(1, 0))
+		put(fmt.Sprintf("ADD nhg2@%s {2}", t), ni, add, ribx.NHGEntry(2, 0, m(2, 1)))
+		put(fmt.Sprintf("ADD nhg2@%s {2} backup 1", t), ni, add, ribx.NHGEntry(2, 1, m(2, 1)))
+		put(fmt.Sprintf("DELETE nhg2@%s", t), ni, del, ribx.NHGEntry(2, 0))
+		put(fmt.Sprintf("ADD nh1@%s b", t), ni, add, ribx.NHEntry(1, "2.2.2.2"))
+		put(fmt.Sprintf("REPLACE nh1@%s b", t), ni, rep, ribx.NHEntry(1, "2.2.2.2"))
+		put(fmt.Sprintf("DELETE nh1@%s", t), ni, del, ribx.NHEntry(1, ""))
+		put(fmt.Sprintf("ADD nh2@%s", t), ni, add, ribx.NHEntry(2, "3.3.3.3"))
+		put(fmt.Sprintf("DELETE nh2@%s", t), ni, del, ribx.NHEntry(2, ""))
+	}
+	put("ADD nh1@V", V, add, ribx.NHEntry(1, "4.4.4.4"))
+	return out
+}
+
+// FullAlphabet lists the names of the symmetric alphabet plus the flushes and the richer payload of next-hop 1.
+func FullAlphabet() []string {
+	var names []string
+	for n := range generated() {
+		names = append(names, n)
+	}
+	names = append(names, "ADD nh1@D a", "FLUSH D", "FLUSH V", "FLUSH all")
+	sort.Strings(names)
+	return names
+}
